@@ -1332,3 +1332,171 @@ def rule_R4k(ctx, rep, config="c-lib"):
                                   f.name, k if m_.op == "mul" else 2 ** k), where=m_.where(), witness=[m_.where()])
     if n == 0:
         rep.ok("R4k", "no-unbounded-geometric-accumulation", nontrivial=False)
+
+
+def rule_R4m(ctx, rep, config="c-lib"):
+    rep.rule("R4m", "a value that is narrowed (trunc) when it is stored into a member of a structure, and that comes back from that member as an index or a position, "
+                    "fits into the member: it is a constant, a truth value, a widened narrow value, or bounded by a comparison with a constant on the way to the store.  "
+                    "The dot position of a situation runs up to the length of the rule, which the caller chooses: kept in a `short' it wraps at 32768 and the "
+                    "right hand side is read at a negative index")
+    p = ctx.prog(config)
+    n = 0
+    # members whose loaded value is widened and used as an index / in address arithmetic somewhere in the library
+    indexed = set()
+    for f in p.m.defined():
+        if f.module and not f.module.startswith("yaep."):
+            continue
+        for g_ in f.all_insts():
+            if g_.op != "getelementptr":
+                continue
+            for st in g_.d["path"]:
+                for k_ in ("idx", "ptr"):
+                    o = st.get(k_)
+                    if not isinstance(o, dict):
+                        continue
+                    work, seen = [o], set()
+                    while work:
+                        x = work.pop()
+                        if x.get("k") != "i" or x["v"] in seen:
+                            continue
+                        seen.add(x["v"])
+                        i = f.insts.get(x["v"])
+                        if i is None:
+                            continue
+                        if i.op in ("sext", "zext") and i.ty in ("i32", "i64"):
+                            l_ = f.inst(i.ops[0])
+                            if l_ is not None and l_.op == "load" and l_.ty in ("i8", "i16"):
+                                lf = resolve_addr(f, l_.ops[0]).last_field()
+                                if lf:
+                                    indexed.add(lf)
+                            work.append(i.ops[0])
+                        elif i.op in ("add", "sub", "mul", "sext", "zext", "trunc"):
+                            work.extend(x_ for x_ in i.ops if isinstance(x_, dict))
+    for f in p.m.defined():
+        if f.module and not f.module.startswith("yaep."):
+            continue
+        for s_ in f.all_insts():
+            if s_.op != "store":
+                continue
+            v = f.inst(s_.ops[0])
+            if v is None or v.op != "trunc" or v.ty not in ("i8", "i16"):
+                continue
+            lf = resolve_addr(f, s_.ops[1]).last_field()
+            if not lf or lf not in indexed:
+                continue
+            n += 1
+            rep.cover(p, [f.name])
+            key = "%s/narrowed-into-%s" % (f.name, lf)
+            mx = (1 << (int(v.ty[1:]) - 1)) - 1
+            src = f.inst(strip_int_casts(f, v.ops[0]))
+            ok = const_int(v.ops[0]) is not None
+            if not ok and src is not None and src.op in ("icmp",):
+                ok = True
+            if not ok and src is not None and src.op in ("zext", "sext") and f.inst(src.ops[0]) is not None and f.inst(src.ops[0]).ty in ("i1", "i8", "i16"):
+                ok = True
+            if not ok:
+                ub = upper_bound(f, v.ops[0], s_.block.name)
+                ok = ub is not None and ub <= mx
+            if ok:
+                rep.ok("R4m", key, sample={"store": s_.where()})
+            else:
+                rep.violation("R4m", key, "%s stores a value without a known bound into the %d-bit member %s, which is read back as an index: beyond %d the value wraps to "
+                              "a negative number and the array is read before its start" % (f.name, int(v.ty[1:]), lf, mx), where=s_.where(), witness=[s_.where()])
+    if n == 0:
+        rep.ok("R4m", "no-narrowed-index-member", nontrivial=False)
+
+
+def rule_R4o(ctx, rep, config="c-lib"):
+    rep.rule("R4o", "an index is tested before it is used: when a function compares a value with 0 to find out whether it is negative (`if (pos < 0)'), no array element "
+                    "has been read or written with that same value as the index on the way to the test, unless an earlier test already excluded the negative values "
+                    "-- `disp = order[pos]; ... if (pos < 0)' reads order[-1] every time the test succeeds")
+    from .r5 import _controlling_conditions
+    p = ctx.prog(config)
+    n = 0
+    for f in p.m.defined():
+        tests = {}
+        for c in f.all_insts():
+            if c.op != "icmp":
+                continue
+            k = const_int(c.ops[1])
+            if (c.d["pred"], k) not in (("slt", 0), ("sle", -1), ("sgt", -1), ("sge", 0)):
+                continue
+            v = strip_int_casts(f, c.ops[0])
+            if v.get("k") == "i":
+                tests.setdefault(v["v"], []).append(c)
+        if not tests:
+            continue
+        for g_ in f.all_insts():
+            if g_.op != "getelementptr":
+                continue
+            for st in g_.d["path"]:
+                for k_ in ("idx", "ptr"):
+                    o = st.get(k_)
+                    if not isinstance(o, dict):
+                        continue
+                    v = strip_int_casts(f, o)
+                    if v.get("k") != "i" or v["v"] not in tests:
+                        continue
+                    # the element is accessed
+                    acc = [u for u in f.all_insts() if u.op in ("load", "store") and strip_casts(f, u.ops[1] if u.op == "store" else u.ops[0]) == {"k": "i", "v": g_.id}]
+                    if not acc:
+                        continue
+                    for c in tests[v["v"]]:
+                        for u in acc:
+                            if not f.inst_dominates(u, c):
+                                continue
+                            # an earlier test of the same value that controls the access
+                            pre = any(strip_int_casts(f, cc.ops[0]) == v and cc.id != c.id for (cc, _) in _controlling_conditions(f, u.block.name))
+                            n += 1
+                            rep.cover(p, [f.name])
+                            key = "%s/index-tested-after-use@%s" % (f.name, u.where().rsplit("/", 1)[-1])
+                            if pre:
+                                rep.ok("R4o", key, nontrivial=False)
+                            else:
+                                rep.violation("R4o", key, "%s accesses an array element with an index that it tests for being negative only afterwards (%s): when the test "
+                                              "succeeds the element before the start of the array has been read (written) already" % (f.name, c.where()),
+                                              where=u.where(), witness=[u.where(), c.where()])
+    if n == 0:
+        rep.ok("R4o", "no-index-used-before-its-sign-test", nontrivial=False)
+
+
+def rule_R4n(ctx, rep, config="c-lib"):
+    rep.rule("R4n", "the costs of abstract nodes are the user's (any int >= 0, one per rule) and the cost pass adds them up over the whole tree: every int addition of "
+                    "a node's cost and another value that is not a constant is controlled by a comparison against INT_MAX minus one of the operands (or done in a "
+                    "wider type) -- two nested nodes of cost INT_MAX, or a long input with moderate costs, overflow the sum (undefined behaviour; in practice a "
+                    "negative total that the visit mark -cost - 1 turns into a wrong positive one)")
+    from .r5 import _controlling_conditions
+    p = ctx.prog(config)
+    n = 0
+    for f in p.m.defined():
+        if f.module and not f.module.startswith("yaep."):
+            continue
+        for a_ in f.all_insts():
+            if a_.op != "add" or a_.ty != "i32" or not a_.d.get("nsw"):
+                continue
+            if const_int(a_.ops[0]) is not None or const_int(a_.ops[1]) is not None:
+                continue
+            costs = []
+            for o in a_.ops:
+                l_ = f.inst(strip_int_casts(f, o))
+                if l_ is not None and l_.op == "load" and (resolve_addr(f, l_.ops[0]).last_field() or "").endswith("anode.cost"):
+                    costs.append(l_)
+            if not costs:
+                continue
+            n += 1
+            rep.cover(p, [f.name])
+            key = "%s/cost-sum#%d" % (f.name, n)
+            guard = None
+            for (cc, pol) in _controlling_conditions(f, a_.block.name):
+                if cc.d["pred"] in ("eq", "ne"):
+                    continue
+                for o in cc.ops:
+                    v = f.inst(strip_int_casts(f, o))
+                    if v is not None and v.op == "sub" and const_int(v.ops[0]) is not None and const_int(v.ops[0]) >= (1 << 30):
+                        guard = cc
+            if guard is not None:
+                rep.ok("R4n", key, sample={"sum": a_.where(), "guard": guard.where()})
+            else:
+                rep.violation("R4n", key, "%s adds a node's cost and another cost in int without an overflow test: the total cost of a translation can exceed INT_MAX "
+                              "(signed overflow, a negative or wrapped total decides which alternatives are `minimal')" % f.name, where=a_.where(), witness=[a_.where()])
+    rep.floor("R4n", "sums of abstract node costs", n, 1)
